@@ -783,7 +783,7 @@ func nativeReplay(h Harness, rfPath string) (string, string) {
 	ovj, _ := json.Marshal(map[string]any{"Replace": ov})
 	ovPath := filepath.Join(tmp, "overlay.json")
 	os.WriteFile(ovPath, ovj, 0o644)
-	cmd := exec.Command("go", "test", "-tags", "verif", "-vet=off", "-count=1", "-run", "^TestVerifReplay$", "-timeout", "120s", "-overlay", ovPath, "./"+harnessPkgDir(h))
+	cmd := exec.Command("go", "test", "-v", "-tags", "verif", "-vet=off", "-count=1", "-run", "^TestVerifReplay$", "-timeout", "120s", "-overlay", ovPath, "./"+harnessPkgDir(h))
 	cmd.Dir = repoDir
 	cmd.Env = append(goEnv(), "VERIF_REPLAY="+rfPath)
 	out, _ := cmd.CombinedOutput()
